@@ -271,7 +271,10 @@ class Spec(core.PropSpec):
                     i = ro.randrange(n)
                     ops.append(["get", i])
             readers.append(ops)
-        return dict(R=R, n=n, kind=rw.choice(KINDS), tf=rw.choice([None, "wrap", "inplace", "inplace"]), readers=readers,
+        # the indices behind the key numbers: dense 0..n-1, or sparse / large ones (hash- or modulo-style key handling shows up)
+        pool = [0, 1, 2, 3, 5, 7, 8, 16, 255, 256, 1000, 1024, 4099, 65536, 2 ** 31 + 5, 10 ** 12 + 1]
+        keys = list(range(n)) if rw.random() < 0.6 else sorted(rw.sample(pool, n))
+        return dict(R=R, n=n, keys=keys, kind=rw.choice(KINDS), tf=rw.choice([None, "wrap", "inplace", "inplace"]), readers=readers,
                     sched_seed=st("sched").getrandbits(32), choices=None)
 
     def shrink_candidates(self, plan):
@@ -296,9 +299,12 @@ class Spec(core.PropSpec):
         from simkit.deep import deep_diff, h
         out = core.Outcome()
         n, kind, tf = plan["n"], plan["kind"], plan["tf"]
-        readers = [ops for ops in plan["readers"]]
+        keys = plan.get("keys") or list(range(n))
+        if len(keys) < n:
+            keys = list(range(n))
+        readers = [[[op[0], keys[op[1]]] if op[0] == "get" and 0 <= op[1] < n else op for op in ops] for ops in plan["readers"]]
         R = len(readers)
-        if R == 0 or n < 1 or any(op[0] == "get" and not (0 <= op[1] < n) for ops in readers for op in ops):
+        if R == 0 or n < 1 or any(op[0] == "get" and not (0 <= op[1] < n) for ops in plan["readers"] for op in ops):
             out.rejected = True
             return out, []
         saved = sdd.Manager
@@ -311,7 +317,7 @@ class Spec(core.PropSpec):
             _real = _os0.getpid
             _os0.getpid = lambda: 40000
             try:
-                ds = sdd.SharedDictDataset(Base(kind, n), transform=Transform(tf) if tf else None)
+                ds = sdd.SharedDictDataset(Base(kind, max(keys) + 1), transform=Transform(tf) if tf else None)
             except Exception as e:
                 out.violate("C19:raises:" + type(e).__name__, "constructor", f"{type(e).__name__}: {e}")
                 return out, []
@@ -370,7 +376,7 @@ class Spec(core.PropSpec):
         out.events = hist
         out.ev("sched", sched.trace)
         trace = list(sched.trace)
-        self._oracle(plan, hist, results, out, deep_diff)
+        self._oracle(dict(plan, readers=readers), hist, results, out, deep_diff)
         # coverage bookkeeping
         switches = sum(1 for a, b in zip(trace, trace[1:]) if a != b)
         out.count("sched:steps", len(trace))
@@ -383,7 +389,7 @@ class Spec(core.PropSpec):
         inside = self._dispose_inside_get(hist)
         if inside:
             out.count("fault:dispose_inside_other_readers_get", inside)
-        keys_before_after = self._read_before_and_after_dispose(hist, n)
+        keys_before_after = self._read_before_and_after_dispose(hist, 10 ** 15)
         out.nontrivial = n_disp > 0 and keys_before_after and (R == 1 or switches >= 2)
         return out, trace
 
